@@ -56,6 +56,10 @@ type obs struct {
 
 var debug = os.Getenv("XAB_DEBUG") != ""
 
+// slowLeg: XAB_SLOW=1 - the process runs with a 100 ms branch execution timeout and every business statement
+// is held back for 250 ms
+var slowLeg = os.Getenv("XAB_SLOW") != ""
+
 func main() {
 	o := common.Parse()
 	if o.Mode == "ids" {
@@ -85,7 +89,7 @@ func main() {
 		sc := scenario{Kind: []string{"ins", "upd", "del", "sel"}[r.Intn(4)], Mode: []string{"auto", "explicit"}[r.Intn(2)], Reg: "ok",
 			P2: []string{"commit", "rollback"}[r.Intn(2)], How: []string{"once", "once", "dup", "restart"}[r.Intn(4)],
 			Ver: []string{"8.0.28", "8.0.30"}[r.Intn(2)], Xid: []string{"dash", "dash", "long", "quote", "bigbid"}[r.Intn(5)]}
-		if r.Intn(4) == 0 {
+		if r.Intn(4) == 0 && !slowLeg { // the slow leg has no database faults on top of the timeout
 			sc.FailAt = 1 + r.Intn(4)
 		}
 		scs = append(scs, sc)
@@ -116,6 +120,11 @@ func main() {
 			first = l
 		}
 		labs[ver] = l
+		if slowLeg {
+			// every scenario of this leg outlives the branch execution timeout (the business statement is held
+			// back); the key cannot be set through the configuration file, hence the verif hook
+			sqlpkg.VerifSetXABranchExecutionTimeout(100 * time.Millisecond)
+		}
 		return l
 	}
 	refused := 0
@@ -325,7 +334,18 @@ func run(lab *atlab.XALab, t *trace.T, sc scenario, r rnd) (refused bool) {
 		if sc.FailAt > 0 {
 			lab.Srv.AddFault(memsql.Fault{Nth: sc.FailAt})
 		}
+		if slowLeg {
+			held := false
+			lab.Srv.SetGate(func(e *memsql.Entry) error {
+				if !held && strings.EqualFold(e.Table, "acct") {
+					held = true
+					time.Sleep(250 * time.Millisecond)
+				}
+				return nil
+			})
+		}
 		callErr, panicked = call(ctx, lab.DB, sc)
+		lab.Srv.SetGate(nil)
 		lab.Srv.ClearFaults()
 		seqRet = tc.NextSeq()
 		st1 = [3]interface{}{len(lab.Srv.PreparedXA()), lab.ConnsInXA(), lab.Srv.SnapshotHash("acct") != snapBefore}
@@ -557,6 +577,9 @@ func run(lab *atlab.XALab, t *trace.T, sc scenario, r rnd) (refused bool) {
 		xf = "plain"
 	}
 	sig := fmt.Sprintf("%s:%s:reg=%s:fault=%s:ver=%s:p2=%s-%s:reuse=%d:xid=%s", sc.Mode, sc.Kind, sc.Reg, faultClass, sc.Ver, kind, sc.How, sc.Reuse, xf)
+	if slowLeg {
+		sig += ":slow"
+	}
 	for _, e := range evs {
 		kv := append([]interface{}{}, e.kv...)
 		s := sig
